@@ -115,7 +115,7 @@ class Hooks:
         return None   # let the executor build the default term
 
     def is_noreturn(self, ex, name, usr):
-        return False
+        return usr in ex.v.noreturn
 
 
 class Exec:
@@ -132,13 +132,23 @@ class Exec:
         body = d.get("body")
         self.assigned, self.addr_taken = assigned_ids([body, d.get("inits")])
         self.this = this if this is not None else sym.sym("this")
+        # locals passed to non-const reference parameters are written by the callee: memory cells
+        for n in walk([body, d.get("inits")]):
+            if n.get("k") in ("call", "mcall", "construct") and n.get("cusr") in variant.decls:
+                cps = variant.decls[n["cusr"]].d["params"]
+                for i, a in enumerate(n.get("args", [])):
+                    if i < len(cps) and isinstance(a, dict) and a.get("k") == "ref" and "id" in a and \
+                            is_ref_type(cps[i]["t"]) and not cps[i].get("pointee_const"):
+                        self.addr_taken.add(a["id"])
         params = d["params"]
         for i, p in enumerate(params):
             if args is not None and i < len(args) and args[i] is not None:
                 val = args[i]
             else:
                 val = sym.sym(p["n"] or "arg%d" % i)
-            if p["id"] in self.addr_taken:
+            if is_ref_type(p["t"]) and args is not None and i < len(args) and args[i] is not None:
+                self.env[p["id"]] = ("alias", val)
+            elif p["id"] in self.addr_taken:
                 # parameter whose address is taken: treat as memory cell initialised to val
                 self.env[p["id"]] = ("cell", ("var", p["n"], p["id"]), val)
             else:
@@ -234,7 +244,8 @@ class Exec:
 
     def _tracked_ref(self, e):
         return isinstance(e, dict) and e.get("k") == "ref" and e.get("rk") in ("local", "param") and \
-            e.get("id") in self.env and not (isinstance(self.env[e["id"]], tuple) and self.env[e["id"]][0] == "cell")
+            e.get("id") in self.env and not (isinstance(self.env[e["id"]], tuple) and
+                                             self.env[e["id"]][0] in ("cell", "alias"))
 
     def declare(self, dv, out):
         t = dv.get("t", "")
@@ -485,7 +496,7 @@ class Exec:
                 if isinstance(v, tuple) and v[0] == "cell":
                     return self.load(v[1])
                 if isinstance(v, tuple) and v[0] == "alias":
-                    return v[1]
+                    return self.load(v[1])
                 return v
             if rk in ("global", "class_static", "static_local", "tls"):
                 if "cv" in e and e.get("const"):
@@ -721,7 +732,20 @@ class Exec:
                 this = self.ev(obj, out)
             else:
                 this = sym.addr(self.lv(obj, out))
-        args = [self.ev(a, out) if isinstance(a, dict) else None for a in e.get("args", [])]
+        cps = self.v.decls[e["cusr"]].d["params"] if e.get("cusr") in self.v.decls else []
+        off = 1 if (k == "opcall" and cps is not None and e.get("cusr") in self.v.decls
+                    and self.v.decls[e["cusr"]].get("record")) else 0
+        args = []
+        for i, a in enumerate(e.get("args", [])):
+            if not isinstance(a, dict):
+                args.append(None)
+                continue
+            j = i - off
+            if 0 <= j < len(cps) and is_ref_type(cps[j]["t"]) and a.get("k") in ("ref", "member", "index") \
+                    and not cps[j].get("pointee_const"):
+                args.append(self.lv(a, out))
+            else:
+                args.append(self.ev(a, out))
         if name is None:
             out.append({"e": "unknown", "what": "indirect call", "l": e["l"]})
             return ("unk", "indirect@%s" % e["l"])
